@@ -244,6 +244,12 @@ def r7_send_cursor(ctx):
     C05.r4_cursor(ctx)
 
 
+def r20_unconditional_mutators(ctx):
+    """Mutators this property relies on always perform their effect (shared table in rules/mutators.py)."""
+    import rules.mutators as mutators
+    mutators.run_for(ctx, "C13")
+
+
 RULES = [
     ("C13.R1", "run-condition table of the event systems", r1_run_conditions, 9, ["default", "all-features"]),
     ("C13.R2", "remote send and local re-emission of client events are mutually exclusive", r2_mutual_exclusion, 5, None),
@@ -252,5 +258,6 @@ RULES = [
     ("C13.R5", "local re-emission: SERVER identity and local recipient rules (C05.R1/R3)", r5_local_identity, 5, ["default", "all-features", "server-only"]),
     ("C13.R6", "SERVER is excluded from every remote send arm and served only by the local re-emitter (same rule as C05.R1)", r6_recipient_tables, 18, ["default", "all-features", "server-only"]),
     ("C13.R7", "the client's send cursor is persistent and never rewound (same rule as C05.R4)", r7_send_cursor, 8, ["default", "all-features"]),
+    ("C13.R20", "mutators this property relies on always perform their effect (rules/mutators.py): no early return, no guard outside the allowed set", r20_unconditional_mutators, 1, ["default", "all-features"]),
 ]
 THOROUGH_CONFIGS = ["default", "all-features", "server-only", "client-only"]
